@@ -51,13 +51,13 @@ for mode in (3, 4):
 
 INO_NAMES = {1: "dir", 2: "file", 3: "slink", 4: "bdev", 5: "cdev", 6: "fifo", 7: "socket", 8: "ext_dir", 9: "ext_file", 10: "ext_slink",
              11: "ext_bdev", 12: "ext_cdev", 13: "ext_fifo", 14: "ext_socket", 15: "invalid_type"}
-def inode(t, sizes, maxrd, calls, tiers, timeout=300):
+def inode(t, sizes, maxrd, calls, tiers, timeout=300, extra=None):
     reach = {1: ["dir"], 2: ["file"], 3: ["slink"], 8: ["dir_ext"], 9: ["file"], 10: ["slink"], 15: ["error"]}.get(t, ["other"])
     return dict(name="inode_%s" % INO_NAMES[t], harness="harness/C05_inode.c",
         sources=["lib/sqfs/src/read_inode.c", "lib/sqfs/src/inode.c", "lib/util/src/alloc.c"],
         pre_include=["stubs/vp_alloc_sizes.h"],
-        defines=dict(VP_ALLOC_SIZES=sizes, VP_META_MAXRD=maxrd, VP_META_MAXCALLS=calls, VP_META_FORCE_U16=t), unwind=8,
-        termination=True, tiers=tiers, timeout=timeout, mem_gb=24, reach=reach + (["error"] if "error" not in reach else []),
+        defines=dict(dict(VP_ALLOC_SIZES=sizes, VP_META_MAXRD=maxrd, VP_META_MAXCALLS=calls, VP_META_FORCE_U16=t), **(extra or {})), unwind=8,
+        termination=True, tiers=tiers, timeout=timeout, mem_gb=40, reach=reach + (["error"] if "error" not in reach else []),
         functions=["sqfs_meta_reader_read_inode, read_inode_file, read_inode_file_ext, read_inode_slink, read_inode_slink_ext, read_inode_dir_ext, set_mode, "
                    "get_block_count (lib/sqfs/src/read_inode.c)", "sqfs_inode_unpack_dir_index_entry, sqfs_inode_get_file_size, "
                    "sqfs_inode_get_frag_location (lib/sqfs/src/inode.c)", "alloc_flex (lib/util/src/alloc.c)"],
@@ -82,6 +82,16 @@ OBLIGATIONS.append(dict(name="readdir_arbitrary_listing", harness="harness/C05_r
     reach=["eof", "error", "entry"],
     functions=["sqfs_readdir_state_init, sqfs_meta_reader_readdir, sqfs_meta_reader_read_dir_header, sqfs_meta_reader_read_dir_ent (lib/sqfs/src/readdir.c)"],
     bound="arbitrary directory inode (basic/extended), 3 consecutive readdir calls, every metadata byte unconstrained, names of 1..3 bytes (larger allocations fail)"))
+
+OBLIGATIONS.append(dict(name="tree_reader_loop_test", harness="harness/C05_loopcheck.c", sources=[], included_sources=["lib/common/src/read_tree.c"],
+    defines=dict(DEPTH=3), unwind=6, backend="cadical", tiers=["quick", "thorough"], timeout=200, reach=["loop", "no_loop"],
+    functions=["would_be_own_parent (lib/common/src/read_tree.c)"],
+    bound="ancestor chain of 0..3 nodes, every inode type / number / mode symbolic"))
+# harness/C05_tree.c (fill_dir over a symbolic inode graph) is kept but not registered: no verdict within 400 s even for 2 inodes (recursion inside two loops)
+
+# not registered: inode_ext_dir_index_growth_boundary (read_inode_dir_ext with one index entry whose name length is 112..119, i.e. around the 128 byte growth
+# boundary; needs reads of ~117 unconstrained bytes into realloc()ed byte-array objects) - no verdict in 900 s / 40 GB. The seeded change C05_1 (off-by-one in that growth
+# test) is therefore NOT caught; see DESIGN.md 0A.7.
 
 ASSUMPTIONS = [
     "file stub: read_at copies the available prefix and fails with OUT_OF_BOUNDS past the end (behaviour of the pread loop in io/file.c)",
